@@ -3,7 +3,7 @@ from . import supcommon as S
 
 OCAML = S.OCAML
 GO = S.GO
-FAMILIES = "startup,big,state,gatefail,gatecancel".split(",")
+FAMILIES = "startup,big,state,gatefail,gatecancel,gatetimed".split(",")
 PROP = "props/C03.v"
 PROOFS = ["proofs/SupInv.v", "proofs/SupTrig.v", "proofs/SupGate.v", "proofs/SupResult.v", "proofs/SupPending.v"]
 
